@@ -140,13 +140,13 @@ def obligations(tier):
     shapes = []
     base = [["P", "T"], ["T", "P", "T"], ["P", "P", "T"], ["O", "P", "T"], ["F0", "P", "F1"], ["F0", "P", "FC", "P", "F1"],
             ["P", "F0", "O", "P", "F1", "P"], ["F0", "O", "F1"], ["T", "O", "T"], ["P", "P", "P"], ["F0", "P", "P", "F1", "T"]]
-    if thorough:
+    if True:
         alphabet = ["P", "O", "T"]
-        for k in (1, 2, 3, 4):
+        for k in ((1, 2, 3, 4) if thorough else (1, 2, 3)):
             for combo in itertools.product(alphabet, repeat=k):
                 if combo.count("P") <= 3:
                     base.append(list(combo))
-        for pos in itertools.product(["", "P", "O", "PP"], repeat=3):
+        for pos in itertools.product(["", "P", "O", "PP"] if thorough else ["", "P", "O"], repeat=3):
             sh = []
             for frag, ins in zip(("F0", "FC", "F1"), pos):
                 sh.append(frag)
